@@ -532,9 +532,6 @@ def scan_kind(facts, t, analysed=None, bad=None):
         kf, vf = 'actor', 'counter'
     else:
         return None
-    item = q['m'].get(('param', 2))
-    if item is None:
-        return None
     got = []
 
     def classify(a, b, tt):
@@ -543,7 +540,7 @@ def scan_kind(facts, t, analysed=None, bad=None):
             if cg is not None:
                 k, v = versionless(cg[1]), versionless(y)
                 pc = param_path(cg[0])
-                if k == ('field', versionless(item), kf) and v == ('field', versionless(item), vf) and pc:
+                if k[0] == 'field' and k[2] == kf and v[0] == 'field' and v[2] == vf and k[1] == v[1] and quant_item(q, k[1]) and pc:
                     got.append(pc[0])
                     return ('p', orient)
         return None
